@@ -170,8 +170,13 @@ class Rotate(Domain):
         return translated_points
 
     def sample_grid(self, n=None, d=None, params=Points.empty(), device="cpu"):
+        # a domain that does not depend on the params is sampled once, the
+        # points are copied for every parameter row afterwards
+        inner_params = params
+        if not any(var in self.domain.necessary_variables for var in params.space):
+            inner_params = Points.empty()
         original_points = self.domain.sample_grid(
-            n=n, d=d, params=params, device=device
+            n=n, d=d, params=inner_params, device=device
         ).as_tensor
         return self._rotate_grid(original_points, params)
 
